@@ -132,7 +132,12 @@ def tree_with_references(rng, gen):
     for _ in range(rng.randint(1, 4)):
         src = rng.choice(sources)
         ref = Node(rng.choice(["contact", "creator", "metadataProvider"]))
-        ref.add_child(Node("references", content=src.attributes["id"]))
+        # a references element need not be the only child of its parent (schema-invalid, yet importable and buildable)
+        for _s in range(rng.choice([0, 0, 1, 2])):
+            sib = Node(rng.choice(["phone", "electronicMailAddress", "onlineUrl"]), content="sibling")
+            sib.add_child(Node("verifBelowSibling"))
+            ref.add_child(sib)
+        ref.add_child(Node("references", content=src.attributes["id"]), rng.choice([None, 0]))
         ds.add_child(ref, ds.children.index(src) + (1 if rng.random() < 0.5 else 0))
         k += 1
     return ds, k
